@@ -215,6 +215,31 @@ theorem history_deep_configure_is_seen_example :
     lexGet, lexResult, mergeOuter, splitOnDot, mergeKVs.eq_1, mergeKVs.eq_2, mergeKVs.eq_3, mergeKVs.eq_4,
     mergeKVs.eq_5, mergeKVs.eq_6, mergeKVs.eq_7, Inv.lookup, Inv.insert, Except.map]
 
+/-! ### collections loaded from a module
+
+`Collection.from_module` / `add_collection(module)` is CONSTRUCTION: it yields a NEW collection (`fromModule`: the
+tasks, aliases and sub-collections of the module's `ns` under the new normalisation, its configuration merged
+with the `config=` argument) which is then an ordinary sub-tree.  The model of a tree with module-backed
+collections is the resulting tree - every load of one module is a separate sub-tree with its own stored
+configuration - and the harness serialises exactly that (each loaded copy enters a history as an `addColl`
+step).  Hence "siblings contribute nothing" covers the copies of one module among each other. -/
+
+namespace C17ex
+/-- the collection `b` taken as a module's `ns`, loaded under the name `nm` -/
+def loaded (nm : String) : Coll :=
+  match fromModule b (some (S nm)) (S "mod") true [] with
+  | .ok c => c
+  | .error _ => b
+/-- one module mounted twice, as `staging` and as `prod` -/
+def twice : Coll := .mk none true [(S "top", 9)] [] [(S "staging", loaded "staging"), (S "prod", loaded "prod")] none [I "kr" 3]
+end C17ex
+
+/-- whatever is configured later on ONE loaded copy (or added to it), the tasks of the OTHER copy of the same
+    module keep their settings -/
+theorem loaded_copies_are_independent_example (o : TreeOp) (h : o.addr = [S "staging"]) :
+    (o.apply twice).twc [S "prod", S "t"] = twice.twc [S "prod", S "t"] :=
+  mutation_off_path_changes_nothing o twice _ (by rw [h]; decide)
+
 /-! ## freshness (object model) -/
 
 open OVal in
